@@ -378,6 +378,16 @@ def parallel_index_obligations(model, rep, fn, clause, rule="PAIR"):
             key = (norm_src(ex.func), tuple((i, b) for i, b, _ in idx))
             groups.setdefault(key, []).append((c, [v for _, _, v in idx]))
     n = 0
+    # the same pairing with a loop variable as the index: `f(A[k], B[k]) for k in range(3)` pairs the axes by construction, `f(A[i], B[j])` does not
+    for c in calls_in(fn, include_nested=True):
+        subs = [(a.value.id, a.slice.id) for a in c.args if isinstance(a, ast.Subscript) and isinstance(a.value, ast.Name) and isinstance(a.slice, ast.Name)]
+        if len(subs) >= 2 and len({b for b, _ in subs}) >= 2:
+            n += 1
+            rep.instance(rule, fn.loc(c))
+            same = len({i for _, i in subs}) == 1
+            rep.ob(rule, fn.anchor, f"the per-axis call `{norm_src(c.func)}(...)` takes entry k of each of ({', '.join(b for b, _ in subs)}) together", same,
+                   "" if same else f"`{norm_src(c)[:70]}` indexes the sequences with different variables", node=c, fn=fn, clause=clause,
+                   stmt=f"per-axis pairing of {norm_src(c.func)} in {fn.name} (loop index)")
     for (f, sig), items in groups.items():
         if len(items) < 2:
             continue
